@@ -132,26 +132,29 @@ Fixpoint insert (nd : node) (s : sub) (ax : aux) {struct nd} : node * bool * aux
       end
   | Inner bf es cache =>
       let i := argmax_f (map (fun cv => sim cv (scent s)) cache) in
-      let '(es', cache', ax') := insert_ents es i i s cache ax in
+      let '(es', cache', ax') := insert_ents es i s cache ax in
       (Inner bf es' cache', bf <? Z.of_nat (ents_len es'), ax')
   end
-with insert_ents (es : ents) (k i : nat) (s : sub) (cache : list fpv) (ax : aux)
+(* walk to entry k; the cache rows are walked along with the entries, so that row k is
+   rewritten in place and a split appends one row at the end *)
+with insert_ents (es : ents) (k : nat) (s : sub) (cache : list fpv) (ax : aux)
      {struct es} : ents * list fpv * aux :=
   match es with
   | ENil => (ENil, cache, ax)
   | ECons e ch tl =>
       match k with
       | S k' =>
-          let '(tl', cache', ax') := insert_ents tl k' i s cache ax in
-          (ECons e ch tl', cache', ax')
+          let '(tl', ctl', ax') := insert_ents tl k' s (List.tl cache) ax in
+          (ECons e ch tl', firstn 1 cache ++ ctl', ax')
       | O =>
           let '(ch', sp, ax1) := insert ch s ax in
           if sp then
             let '((t1, n1), (t2, n2), ax2) := split_node ch' ax1 in
-            (ents_app1 (ECons t1 n1 tl) t2 n2, upd i (scent t1) cache ++ [scent t2], ax2)
+            (ECons t1 n1 (ents_app1 tl t2 n2),
+             scent t1 :: (List.tl cache ++ [scent t2]), ax2)
           else
             let e' := upd_sub e s in
-            (ECons e' ch' tl, upd i (scent e') cache, ax1)
+            (ECons e' ch' tl, scent e' :: List.tl cache, ax1)
       end
   end.
 
